@@ -146,7 +146,7 @@ def gen_fit_once(rng, idx):
 
 
 def gen_ill(rng, idx):
-    kinds = ['gapk', 'gapk', 'gap1', 'fewpoints', 'zeroweights', 'allzero', 'toofew', 'gapk_edge', 'single_edge', 'single_dup']
+    kinds = ['gapk', 'gapk', 'gap1', 'fewpoints', 'zeroweights', 'allzero', 'toofew', 'gapk_edge', 'single_edge', 'single_dup', 'gap_stray', 'gap_stray']
     kind = kinds[idx % len(kinds)]
     if kind in ('single_edge', 'single_dup'):
         # one interval only (exactly 2*nord knots): nothing can be masked, an impossible fit must say -2,
@@ -170,6 +170,20 @@ def gen_ill(rng, idx):
     b = [float(i) for i in range(nseg + 1)]
     xs = sorted(set(C.dyadic(rng, 0, nseg, 5) for _ in range(rng.randint(4 * nseg, 6 * nseg))) | {0.0, float(nseg)})
     ws = [C.dyadic(rng, 0.5, 2, 3) for _ in xs]
+    if kind == 'gap_stray':
+        # a wide gap holding one or two stray points: needs more than one masking round on the same object
+        k = rng.randint(2, 4)
+        nseg = rng.randint(4 * k + 4, 4 * k + 8)
+        b = [float(i) for i in range(nseg + 1)]
+        xs = sorted(set(C.dyadic(rng, 0, nseg, 5) for _ in range(6 * nseg)) | {0.0, float(nseg)})
+        g0 = rng.randint(k + 1, nseg - 3 * k - 3)
+        g1 = g0 + 2 * k + 2
+        stray = [g0 + k + 0.5] + ([g0 + k + 1.25] if rng.random() < 0.5 else [])
+        xs = sorted(set([x for x in xs if not (g0 - 0.25 < x < g1 + 0.25)] + stray))
+        ws = [C.dyadic(rng, 0.5, 2, 3) for _ in xs]
+        ys = [C.dyadic(rng, -4, 4, 6) for _ in xs]
+        return {'f': 'fit', 'kind': kind, 'nord': k, 'bkpt': b, 'xs': xs, 'ys': ys, 'ws': ws,
+                'iterfit': {'maxiter': 2}, 'refit': True}
     if kind in ('gapk', 'zeroweights', 'gapk_edge'):
         g0 = rng.randint(1, nseg - k - 1) if kind != 'gapk_edge' else rng.choice([0, nseg - k - 1])
         g1 = g0 + k + rng.randint(0, 1)
@@ -195,7 +209,7 @@ def gen_ill(rng, idx):
         ws = ws[:1] + ws[-1:]
     ys = [C.dyadic(rng, -4, 4, 6) for _ in xs]
     return {'f': 'fit', 'kind': kind, 'nord': k, 'bkpt': b, 'xs': xs, 'ys': ys, 'ws': ws,
-            'iterfit': {'maxiter': rng.choice([0, 2])}}
+            'iterfit': {'maxiter': rng.choice([0, 2])}, 'refit': True}
 
 
 def band_of(A, bw, n):
@@ -253,7 +267,7 @@ def correspond(ctx, proof_ok=True):
         raise RuntimeError('C09/Model.v does not build:\n' + log[-2000:])
     rng = ctx.rng
     calls = [gen_fit(rng, i) for i in range(ctx.n(72, 500))]
-    calls += [gen_ill(rng, i) for i in range(ctx.n(60, 300))]
+    calls += [gen_ill(rng, i) for i in range(ctx.n(72, 300))]
     calls += [gen_chol(rng, i) for i in range(ctx.n(90, 600))]
     nb = 8
     outs = C.run_impl_parallel('c09_impl.py', [calls[i::nb] for i in range(nb)])
